@@ -6,6 +6,10 @@ def main():
     base = json.load(open("/root/.vp/BASELINE.json"))
     want = set(base["stable_pass"])
     env = {k: v for k, v in os.environ.items() if k not in ("SRLIFE_VERIF", "PYTHONPATH")}
+    def untracked():
+        r = subprocess.run(["git", "-C", "/repo", "status", "--porcelain", "--untracked-files=all"], capture_output=True, text=True)
+        return {l[3:] for l in r.stdout.splitlines() if l.startswith("??")}
+    before = untracked()
     with tempfile.TemporaryDirectory() as d:
         out = os.path.join(d, "junit.xml")
         subprocess.run(["/venv/bin/python", "-m", "pytest", "-ra", "-q", "-p", "no:cacheprovider", "--timeout=900",
@@ -15,6 +19,11 @@ def main():
         for tc in ET.parse(out).getroot().iter("testcase"):
             if not any(c.tag in ("failure", "error", "skipped") for c in tc):
                 passed.add("%s::%s" % (tc.get("classname"), tc.get("name")))
+    for f in sorted(untracked() - before):      # the ceramic tests write *_60K*.txt into the working directory
+        try:
+            os.remove(os.path.join("/repo", f))
+        except OSError:
+            pass
     missing = sorted(want - passed)
     print("baseline: %d/%d stable tests pass (guard off)" % (len(want) - len(missing), len(want)))
     for m in missing:
